@@ -63,6 +63,24 @@ def isPySpace (c : Char) : Bool :=
 
 def strip (s : Str) : Str := ((s.dropWhile isPySpace).reverse.dropWhile isPySpace).reverse
 
+/-- what CPython's two float formatting operations give for one value: `"%s" % x` (= `repr`) and `"%.15f" % float(x)`.
+    The value itself never enters the model (trusted base: CPython float formatting / parsing, sampled). -/
+structure FloatLex where
+  repr : Str
+  f15 : Str
+
+/-- `s.rstrip(c)` for a one-character `c` -/
+def rstrip1 (c : Char) (s : Str) : Str := (s.reverse.dropWhile (· = c)).reverse
+
+/-- `s.endswith(p)` -/
+def endswith (p s : Str) : Bool := p.reverse.isPrefixOf s.reverse
+
+/-- `{k: v, ...}.get(key, default)` -/
+def dictGet (tbl : List (Str × Str)) (key dflt : Str) : Str :=
+  match tbl.find? (fun p => p.1 = key) with
+  | some p => p.2
+  | none => dflt
+
 def strOfBool (b : Bool) : Str := if b then "True".toList else "False".toList      -- `"%s" % b`
 def lower (s : Str) : Str := s.map Char.toLower                                     -- `s.lower()` (ASCII)
 def fmtD (i : Int) : Str := (toString i).toList                                     -- `"%d" % i`
@@ -141,6 +159,21 @@ def parseBool (s : Str) : Option Bool :=
 
 /-- `gds_format_integer`: `"%d" % int(i)` -/
 def fmtInt (i : Int) : Str := (toString i).toList
+
+/-- the XSD spellings of the non-finite values -/
+def xsdNonfinite (s : Str) : Str :=
+  Py.dictGet [("inf".toList, "INF".toList), ("-inf".toList, "-INF".toList), ("nan".toList, "NaN".toList)] s s
+
+/-- `gds_format_double` on the lexical level: `"%s" % x`, non-finite values re-spelled when `xsd` -/
+def fmtDouble (xsd : Bool) (x : Py.FloatLex) : Str :=
+  let value := x.repr
+  if xsd then xsdNonfinite value else value
+
+/-- `gds_format_float` on the lexical level: `"%.15f" % x` without trailing zeros (one kept after the point) -/
+def fmtFloat (xsd : Bool) (x : Py.FloatLex) : Str :=
+  let value := Py.rstrip1 '0' x.f15
+  let value := if Py.endswith ['.'] value = true then value ++ "0".toList else value
+  if xsd then xsdNonfinite value else value
 
 /-- `gds_parse_integer`: `int(s)`, a `ValueError` becomes a parse error -/
 def parseInt (s : Str) : Option Int := Py.int s
